@@ -49,14 +49,14 @@ def special_tiny(rng):
             % (repr(1.0 / 50), repr(50.0 / k), 10 * k, 20 * k, 40 * k, 30 * k))
 
 
-def special(rng):
+def special(rng, force=None):
     """instances whose transform undoes the target's own: the product is the identity and nothing may be left behind"""
-    r = rng.random()
+    r = rng.random() if force is None else force
     if r < 0.10:
         return special_viewport(rng)
     if r < 0.13:
         return special_tiny(rng)
-    if rng.random() > 0.12:
+    if force is None and rng.random() > 0.12:
         return None
     import docgen
     t, u = rng.choice(INVERSE_PAIRS)
@@ -70,6 +70,7 @@ def special(rng):
 
 
 P = RenderProp(features, "stack", n_quick=110, n_thorough=700, special=special)
+P.firsts = [0.05, 0.11, 0.5, 0.05, 0.5, 0.12, 0.05, 0.5]
 correspondence = P.correspondence
 search = P.search
 replay = P.replay
